@@ -11,6 +11,7 @@ package main
 //   (3) the property itself, on the implementation only, with x/net/html as the independent parser.
 
 import (
+	"net/http/httptest"
 	"bytes"
 	"fmt"
 	"html/template"
@@ -445,6 +446,53 @@ func runC17(c *Ctx) {
 			form := url.Values{"SAMLRequest": {plainB64(doc)}, "RelayState": {r[1]}}
 			rep := serve(prov.HttpHandler(), HTTPReq{Method: "POST", Path: "/SLO", Body: form.Encode(), CType: "application/x-www-form-urlencoded"})
 			c17Handler(c, check, "logout", "logout", [2]string{"registered", slo}, r, rep)
+		}
+	}
+	// (c) a reply whose write to the client failed must leave nothing behind: the next page of the same provider
+	// instance is again exactly the page of its own values (a render buffer that is reused must be empty)
+	for round := 0; round < 6; round++ {
+		for _, left := range []int{0, 64, 3000} {
+			st := newStorage()
+			slo := "https://sp.example.com/slo/first?x=1"
+			_ = st.Register(SPSpec{EntityID: spEntity, AppID: "app-1", ReqSigned: "-", Certs: []string{spKeys.B64}, Acs: acsFor("post+redirect"), Slo: []string{slo}})
+			st.Users["uid-1"] = usersFor("full")
+			u1 := [2]string{"plain", "https://sp.example.com/acs/post"}
+			r1 := [2]string{"marker", "relay-of-the-FAILED-reply"}
+			r2 := [2]string{"plain", "relay-of-the-next-reply"}
+			st.Reqs["ar-7"] = &AuthReq{ID: "ar-7", AppID: "app-1", UserID: "uid-1", ReqID: "id-4711", Issuer: spEntity, Binding: provider.PostBinding, Acs: u1[1], Relay: r1[1], IsDone: true}
+			st.Reqs["ar-8"] = &AuthReq{ID: "ar-8", AppID: "app-1", UserID: "uid-1", ReqID: "id-4712", Issuer: spEntity, Binding: provider.PostBinding, Acs: u1[1], Relay: r2[1], IsDone: true}
+			prov, err := newProvider(st, defaultIdpCfg())
+			if err != nil {
+				panic(err)
+			}
+			h := prov.HttpHandler()
+			doc, _ := logoutXML(sloBase(), time.Now())
+			for _, kind := range []string{"callback", "logout"} {
+				rec := httptest.NewRecorder()
+				fw := &failingWriter{ResponseRecorder: rec, left: left}
+				var rep Reply
+				if kind == "callback" {
+					serveOn(h, HTTPReq{Method: "GET", Path: "/login", Query: "id=ar-7"}, fw, rec)
+					rep = serve(h, HTTPReq{Method: "GET", Path: "/login", Query: "id=ar-8"})
+				} else {
+					f1 := url.Values{"SAMLRequest": {plainB64(doc)}, "RelayState": {r1[1]}}
+					serveOn(h, HTTPReq{Method: "POST", Path: "/SLO", Body: f1.Encode(), CType: "application/x-www-form-urlencoded"}, fw, rec)
+					f2 := url.Values{"SAMLRequest": {plainB64(doc)}, "RelayState": {r2[1]}}
+					rep = serve(h, HTTPReq{Method: "POST", Path: "/SLO", Body: f2.Encode(), CType: "application/x-www-form-urlencoded"})
+				}
+				c.rep.Evaluations++
+				c.hist("after-failed-write", fmt.Sprintf("%s left=%d", kind, left))
+				if strings.Contains(rep.Body, r1[1]) {
+					c.issue(Issue{Kind: "violation", What: "the page that follows a reply whose write failed carries the RelayState of that other reply", Site: "sendBack" + map[string]string{"callback": "Response", "logout": "LogoutResponse"}[kind], Class: "stale-render-buffer:" + kind,
+						Detail: map[string]interface{}{"endpoint": kind, "bytes_accepted_before_the_failure": left, "first_relay": r1[1], "second_relay": r2[1], "body_prefix": rep.Body[:min(300, len(rep.Body))]}})
+					continue
+				}
+				if kind == "callback" {
+					c17Handler(c, check, "post", "callback-after-failed-write", u1, r2, rep)
+				} else {
+					c17Handler(c, check, "logout", "logout-after-failed-write", [2]string{"registered", slo}, r2, rep)
+				}
+			}
 		}
 	}
 	pageB.flush()
